@@ -403,9 +403,14 @@ F10_WITNESS = {
 }
 
 
+def desc_of_cfg(cfg: str) -> dict:
+    """inverse of `_cfg` (a witness may carry only the cfg line)"""
+    return {k: (int(v) if v.isdigit() else v) for k, v in kv(cfg).items()}
+
+
 def replay_witness(w: dict):
     """a finding witness: the documented function (for any offset) evaluated on the real code"""
-    case = Case(w["cfg"], list(w["ops"]), w.get("desc", {}), "witness")
+    case = Case(w["cfg"], list(w["ops"]), w.get("desc") or desc_of_cfg(w["cfg"]), "witness")
     out = impl(case)
     for line, o in zip(case.ops, out[1:]):
         exp = reference(kv(line))
